@@ -67,7 +67,7 @@ theorem readsBack_of_cell (d : Db) (hinv : Inv d) (cid : Nat) (k : Str) (row : N
   · constructor
     · refine ⟨w, ?_, hr⟩
       unfold Db.valuesOf
-      apply mem_foldr_insertByRow_of_mem
+      apply mem_foldr_insertByRow_of_mem_sv
       simp only [List.mem_filter, Bool.and_eq_true, beq_iff_eq]
       exact ⟨hw, hc, hn⟩
     · intro w' hw' hr'
@@ -77,7 +77,7 @@ theorem readsBack_of_cell (d : Db) (hinv : Inv d) (cid : Nat) (k : Str) (row : N
     constructor
     · refine ⟨w, ?_, hn, hr⟩
       unfold Db.loopValues
-      apply mem_foldr_insertByRow_of_mem
+      apply mem_foldr_insertByRow_of_mem_sv
       simp only [List.mem_filter, Bool.and_eq_true, beq_iff_eq]
       exact ⟨hw, hc, by rw [hn]; exact hin⟩
     · intro w' hw' hn' hr'
